@@ -19,6 +19,10 @@ fn mkIn() -> In { return { .C = 30, .D = 40 } as In; }
 fn mkP() -> P { return { .A = 10, .B = 20, .In = mkIn() } as P; }
 fn peek(r: &i32) -> i32 { return 1; }
 fn poke(r: &'i32) { }
+fn (p: &'P) TouchP() { }
+fn (p: &P) PeekP() -> i32 { return 1; }
+fn (p: &'In) TouchIn() { }
+fn (p: &In) PeekIn() -> i32 { return 1; }
 '''
 # places: (source text, base id, model path, type, kind)
 PLACES = [("y", 0, "-", "i32"), ("x", 1, "-", "P"), ("x.A", 1, "0", "i32"), ("x.B", 1, "1", "i32"), ("x.In", 1, "2", "In"), ("x.In.C", 1, "2.0", "i32"), ("x.In.D", 1, "2.1", "i32"),
@@ -71,6 +75,14 @@ def gen_events(rng):
             toks.append("W%d:%s" % (base, path))
             lines.append(WRITE_OF[ty] % ((src, 50 + k) if ty == "i32" else (src,)))
         else:
+            structs = [i for i in pool if PLACES[i][3] in ("P", "In")]
+            if structs and rng.below(2) == 0:
+                # a method call: a `&'` receiver borrows the receiver place mutably for the call, a `&` receiver reads it
+                src, base, path, ty = PLACES[rng.choice(structs)]
+                m = rng.below(2) == 0
+                toks.append("T%d:%s:%s" % (base, path, "m" if m else "s"))
+                lines.append("%s.Touch%s();" % (src, ty) if m else "io::Println(%s.Peek%s());" % (src, ty))
+                continue
             i32s = [i for i in pool if PLACES[i][3] == "i32"]
             if not i32s: continue
             src, base, path, ty = PLACES[rng.choice(i32s)]
